@@ -7,15 +7,14 @@ use alloc::{vec, vec::Vec};
 // to_radix_le yields digits < radix for every radix 2..=36 (symbolic radix), hence to_str_radix_reversed yields only [0-9a-z];
 // narrow values (a full 64-bit digit means up to 64 divisions by a symbolic radix)
 macro_rules! ascii_shape {
-    ($name:ident, $bits:expr, $unw:expr) => {
+    ($name:ident, $bits:expr, $unw:expr, $radix:expr) => {
         #[kani::proof]
         #[kani::unwind($unw)]
         #[kani::stub(alloc::vec::Vec::with_capacity, vc::vec_with_capacity_ignored)]
         fn $name() {
             let v: u64 = kani::any();
             kani::assume(v < (1u64 << $bits));
-            let radix: u32 = kani::any();
-            kani::assume(radix >= 2 && radix <= 36);
+            let radix: u32 = $radix;
             let x = if v == 0 { BigUint::ZERO } else { vc::mk_from(&[v]) };
             let out = to_str_radix_reversed(&x, radix);
             kani::assert(!out.is_empty() && out.len() <= $bits + 1, "VERIF to_str_radix_reversed length");
@@ -29,5 +28,11 @@ macro_rules! ascii_shape {
         }
     };
 }
-ascii_shape!(c15_q_ascii_4bit, 4, 8);
-ascii_shape!(c15_t_ascii_8bit, 8, 12);
+ascii_shape!(c15_t_ascii_r10, 8, 12, 10);
+ascii_shape!(c15_t_ascii_r36, 8, 12, 36);
+ascii_shape!(c15_t_ascii_r2, 6, 12, 2);
+ascii_shape!(c15_t_ascii_r8, 6, 12, 8);
+ascii_shape!(c15_t_ascii_r3, 8, 12, 3);
+ascii_shape!(c15_t_ascii_r16, 16, 12, 16);
+ascii_shape!(c15_t_ascii_r35, 8, 12, 35);
+ascii_shape!(c15_t_ascii_r10_16bit, 16, 20, 10);
